@@ -61,16 +61,25 @@ def _s32(p):
 
 
 def classify(d):
-    """-> (class, fields).  `d` is a MISMATCH report of Trace_Update (kind msg)."""
+    """-> (class, fields).  `d` is a MISMATCH report of Trace_Update.
+
+    Trigger based: a known defect explains a mismatch only if its trigger (a syntactic condition
+    on the message, the zone before it and the diagnostics) is present AND every requirement the
+    report lists as broken is one that defect can break.  The class is the first trigger in a
+    fixed priority order; the others are listed in fields["also"]."""
     if d.get("kind") == "axfr":
         ev = d.get("event", {})
-        return "axfr-differs-from-zone", {"err": str(ev.get("err", ""))[:40]}
-    if d.get("kind") != "msg":
+        err = str(ev.get("err", ""))
+        if err.startswith("RESPPARSE") and any(r[1] in ("MAILA", "MAILB") for r in d.get("missing", [])):
+            return "prescan-accepts-mail-metatype", {"type": "MAILA/MAILB", "effect": "axfr-unparseable"}
+        return "axfr-differs-from-zone", {"err": err[:40]}
+    if d.get("kind") not in ("msg", "rmsg"):
         return "unclassified:" + str(d.get("kind")), {}
     broken = set(d["broken"])
     rc = d["rc"]
     exp = set(d["exp_rcs"])
-    apex = _nm(next(r[0] for r in d["pre_rrs"] if r[1] == "SOA")) if any(r[1] == "SOA" for r in d["pre_rrs"]) else "?"
+    soas = [r for r in d["pre_rrs"] if r[1] == "SOA"]
+    apex = _nm(soas[0][0]) if soas else "?"
     zone = {_rr(r) for r in d["pre_rrs"]}
     missing = {_rr(r) for r in d["missing"]}
     extra = {_rr(r) for r in d["extra"]}
@@ -78,76 +87,36 @@ def classify(d):
     upd = d["m"]["upd"]
     for r in pre + upd:
         r["_o"] = _nm(r["o"])
-    ghosts_before = {(_nm(g[0]), g[1]) for g in d.get("ghosts_before", [])}
     pre_ser = _s32(d["pre_ser"])
     ser = _s32(d["ser"])
-    accepted = exp == {"NOERROR"} or ("NOERROR" in exp)
+    MAXS = 0xFFFFFFFF
+    ghosts = {(_nm(g[0]), g[1]) for g in d.get("ghosts_before", [])}
+    # ghosts made inside this message: a class NONE delete of the only RR of an RRset
+    for u in upd:
+        if u["c"] == "NONE" and {z for z in zone if z[0] == u["_o"] and z[1] == u["t"]} == {(u["_o"], u["t"], u["rd"])}:
+            ghosts.add((u["_o"], u["t"]))
+    gnames = {o for (o, _t) in ghosts}
+    ALL = {"rcode", "contents", "serial", "all-or-nothing", "one-soa", "apex-ns"}
+    trig = []  # (class, fields, explains)
 
-    # 1. serial arithmetic overflow at 2^32 - 1 (SOA::increment_serial: `self.serial += 1`)
-    if rc.startswith("PANIC:attempt to add with overflow") and pre_ser == 0xFFFFFFFF:
-        return "serial-increment-overflow-panic", {"pre_serial": "4294967295", "rc": "PANIC"}
-    if rc.startswith("PANIC:attempt to add with overflow") and any(
-            u["t"] == "SOA" and u["c"] == "IN" and _s32(u["ser"]) == 0xFFFFFFFF and u["_o"] == apex for u in upd):
-        return "serial-increment-overflow-panic", {"pre_serial": "4294967295", "rc": "PANIC"}
+    # serial arithmetic overflow at 2^32 - 1 (SOA::increment_serial: `self.serial += 1`)
+    if rc.startswith("PANIC:attempt to add with overflow") and (pre_ser == MAXS or any(
+            u["t"] == "SOA" and u["c"] == "IN" and _s32(u["ser"]) == MAXS for u in upd)):
+        trig.append(("serial-increment-overflow-panic", {"serial": "4294967295", "rc": "PANIC"}, ALL))
+    elif rc.startswith("PANIC"):
+        return "unclassified:panic:" + rc[:40], {}
 
-    # 2. ANY/ANY at the apex removes SOA and NS (inverted `retain` predicate), then SERVFAIL
-    if accepted and rc == "SERVFAIL" and any(u["c"] == "ANY" and u["t"] == "ANY" and u["_o"] == apex for u in upd) \
-            and (apex, "SOA", 0) in missing:
-        return "update-any-any-at-apex", {"owner": "apex", "class": "ANY", "type": "ANY"}
+    # ANY/ANY at the apex removes SOA and NS (inverted `retain` predicate)
+    if any(u["c"] == "ANY" and u["t"] == "ANY" and u["_o"] == apex for u in upd) and any(
+            o == apex and t in ("SOA", "NS") for (o, t, _k) in missing):
+        trig.append(("update-any-any-at-apex", {"owner": "apex", "class": "ANY", "type": "ANY"}, ALL))
 
-    # 3. ANY/ANY at another name keeps that name's NS (same predicate)
-    if rc == "NOERROR" and broken <= {"contents", "serial"} and not missing and extra and all(
-            t in ("NS", "SOA") and o != apex and any(u["c"] == "ANY" and u["t"] == "ANY" and u["_o"] == o for u in upd)
-            for (o, t, _k) in extra):
-        return "update-any-any-keeps-ns", {"owner": "non-apex", "class": "ANY", "type": "ANY"}
+    # prescan lets the obsolete QUERY meta types MAILA / MAILB through
+    if d["scan_bad"] and all(upd[k - 1]["t"] in ("MAILA", "MAILB") and upd[k - 1]["_o"].endswith(apex)
+                             and upd[k - 1]["c"] in ("IN", "ANY", "NONE") for k in d["scan_bad"]):
+        trig.append(("prescan-accepts-mail-metatype", {"type": "MAILA/MAILB"}, {"rcode", "contents", "serial"}))
 
-    # 4. SOA added at a name that has no SOA (RecordSet::insert)
-    if rc == "NOERROR" and "one-soa" in broken and extra and all(
-            t == "SOA" and o != apex and any(u["c"] == "IN" and u["t"] == "SOA" and u["_o"] == o for u in upd)
-            for (o, t, _k) in extra) and not missing:
-        return "soa-added-at-non-apex", {"class": "IN", "type": "SOA", "owner": "non-apex"}
-
-    # 5. SOA serials compared as plain integers instead of RFC 1982
-    def plain_vs_1982(cur, new):
-        plain = new > cur
-        d32 = (new - cur) % (1 << 32)
-        rfc = d32 != 0 and d32 < (1 << 31)
-        return plain != rfc
-    soa_adds = [u for u in upd if u["c"] == "IN" and u["t"] == "SOA" and u["_o"] == apex]
-    if rc == "NOERROR" and broken <= {"serial"} and soa_adds and not missing and not extra and any(
-            plain_vs_1982(pre_ser, _s32(u["ser"])) for u in soa_adds):
-        return "soa-serial-compared-as-integer", {"class": "IN", "type": "SOA", "owner": "apex"}
-
-    # 6. prescan lets the obsolete QUERY meta types MAILA / MAILB through
-    if exp == {"FORMERR"} and d["scan_bad"] and not d["pre_bad"] and not d["pre_val_bad"] and all(
-            upd[k - 1]["t"] in ("MAILA", "MAILB") for k in d["scan_bad"]) and rc == "NOERROR":
-        return "prescan-accepts-mail-metatype", {"type": "MAILA/MAILB"}
-
-    # 7. identical CNAME re-added: serial moves, content does not
-    if rc == "NOERROR" and broken == {"serial"} and d["exp_adv"] == "no" and ser != pre_ser and any(
-            u["c"] == "IN" and u["t"] == "CNAME" and (u["_o"], "CNAME", u["rd"]) in zone for u in upd):
-        return "serial-bump-cname-readd", {"class": "IN", "type": "CNAME", "form": "identical-readd"}
-
-    # 8. empty RRset left in the map by a class NONE delete of the last RR ("ghost")
-    if ghosts_before:
-        gnames = {o for (o, _t) in ghosts_before}
-        # 8a. deleting the ghost RRset counts as a change
-        if rc == "NOERROR" and broken == {"serial"} and d["exp_adv"] == "no" and any(
-                u["c"] == "ANY" and ((u["_o"], u["t"]) in ghosts_before or (u["t"] == "ANY" and u["_o"] in gnames))
-                for u in upd):
-            return "empty-rrset-left-behind", {"effect": "serial-bump-on-delete"}
-        # 8b. name-in-use prerequisites look at the ghost's type first
-        if "rcode" in broken and any(p["t"] == "ANY" and p["c"] in ("ANY", "NONE") and p["_o"] in gnames for p in pre):
-            return "empty-rrset-left-behind", {"effect": "name-in-use-misjudged"}
-        # 8c. the ghost takes part in the CNAME exclusion
-        if rc == "NOERROR" and broken <= {"contents", "serial"} and not extra and missing and all(
-                any(u["c"] == "IN" and u["_o"] == o and u["t"] == t and u["rd"] == k for u in upd)
-                and any(go == o and ((gt == "CNAME") != (t == "CNAME")) for (go, gt) in ghosts_before)
-                for (o, t, k) in missing):
-            return "empty-rrset-left-behind", {"effect": "cname-exclusion"}
-
-    # 9. prerequisites judged through the query-style lookup: referral at / below a delegation,
-    #    CNAME answering for every type
+    # prerequisites judged through the query-style lookup
     def below_cut(o):
         labs = o.split(".")
         for i in range(len(labs) - 1):
@@ -156,35 +125,71 @@ def classify(d):
                 return True
         return False
 
-    def cname_holder(o):
-        return any(zo == o and zt == "CNAME" for (zo, zt, _k) in zone)
-
     def affected(p):
-        if p["c"] not in ("ANY", "NONE", "IN") or p["ttl"] != 0:
+        if p["c"] not in ("ANY", "NONE", "IN") or p["ttl"] != 0 or not p["_o"].endswith(apex):
             return None
         if below_cut(p["_o"]):
             return "delegation"
-        if cname_holder(p["_o"]) and p["t"] not in ("CNAME", "ANY"):
+        if any(zo == p["_o"] and zt == "CNAME" for (zo, zt, _k) in zone) and p["t"] not in ("CNAME", "ANY"):
             return "cname"
         return None
-    if "rcode" in broken:
-        # hickory failed a prerequisite the specification passes
-        if accepted or (exp and not d["pre_bad"] and not d["pre_val_bad"]):
-            want = {"NONE": ("YXRRSET", "YXDOMAIN"), "ANY": ("NXRRSET", "NXDOMAIN"), "IN": ("NXRRSET",)}
-            for p in pre:
-                a = affected(p)
-                if a and rc in want.get(p["c"], ()):
-                    return "prereq-judged-by-query-lookup", {"via": a}
-        # hickory passed a prerequisite the specification fails
-        bad = [pre[k - 1] for k in d["pre_bad"]]
-        if bad and not d["pre_val_bad"] and rc not in exp and all(affected(p) for p in bad):
-            return "prereq-judged-by-query-lookup", {"via": affected(bad[0])}
-        if d["pre_val_bad"] and not bad and rc not in exp:
-            vals = [p for p in pre if p["c"] == "IN"]
-            if vals and all(affected(p) for p in vals):
-                return "prereq-judged-by-query-lookup", {"via": affected(vals[0])}
+    vias = [affected(p) for p in pre if affected(p)]
+    if vias and "rcode" in broken:
+        trig.append(("prereq-judged-by-query-lookup", {"via": vias[0]}, {"rcode", "contents", "serial"}))
 
-    return "unclassified:" + "+".join(sorted(broken)) + ":" + rc[:24], {"expected": sorted(exp)}
+    # empty RRset ("ghost") left in the map by a class NONE delete of the last RR
+    if ghosts:
+        if any(u["c"] == "ANY" and ((u["_o"], u["t"]) in ghosts or (u["t"] == "ANY" and u["_o"] in gnames)) for u in upd):
+            trig.append(("empty-rrset-left-behind", {"effect": "serial-bump-on-delete"}, {"serial"}))
+        if "rcode" in broken and any(p["t"] == "ANY" and p["c"] in ("ANY", "NONE") and p["_o"] in gnames for p in pre):
+            trig.append(("empty-rrset-left-behind", {"effect": "name-in-use-misjudged"}, {"rcode", "contents", "serial"}))
+        blocked = {(o, t, k) for (o, t, k) in missing
+                   if any(u["c"] == "IN" and u["_o"] == o and u["t"] == t and u["rd"] == k for u in upd)
+                   and any(go == o and ((gt == "CNAME") != (t == "CNAME")) for (go, gt) in ghosts)}
+        if blocked:
+            trig.append(("empty-rrset-left-behind", {"effect": "cname-exclusion"}, {"contents", "serial"}))
+
+    # ANY/ANY at another name keeps that name's NS (same predicate as at the apex)
+    kept = {(o, t, k) for (o, t, k) in extra if t in ("NS", "SOA") and o != apex
+            and any(u["c"] == "ANY" and u["t"] == "ANY" and u["_o"] == o for u in upd)}
+    if kept:
+        trig.append(("update-any-any-keeps-ns", {"owner": "non-apex", "class": "ANY", "type": "ANY"}, {"contents", "serial"}))
+
+    # SOA added at a name that has no SOA
+    if any(u["c"] == "IN" and u["t"] == "SOA" and u["_o"] != apex and u["_o"].endswith("." + apex) for u in upd):
+        trig.append(("soa-added-at-non-apex", {"class": "IN", "type": "SOA", "owner": "non-apex"},
+                     {"contents", "one-soa", "serial"}))
+
+    # SOA serials compared as plain integers instead of RFC 1982
+    cur, plain_differs = pre_ser, False
+    for u in upd:
+        if u["c"] == "IN" and u["t"] == "SOA" and u["_o"] == apex:
+            new = _s32(u["ser"])
+            d32 = (new - cur) % (1 << 32)
+            rfc = d32 != 0 and d32 < (1 << 31)
+            if (new > cur) != rfc or d32 == (1 << 31):
+                plain_differs = True
+            if rfc:
+                cur = new
+    if plain_differs:
+        trig.append(("soa-serial-compared-as-integer", {"class": "IN", "type": "SOA", "owner": "apex"}, {"serial"}))
+
+    # identical CNAME re-added: serial moves, content does not
+    if ser != pre_ser and any(u["c"] == "IN" and u["t"] == "CNAME" and (u["_o"], "CNAME", u["rd"]) in zone for u in upd):
+        trig.append(("serial-bump-cname-readd", {"class": "IN", "type": "CNAME", "form": "identical-readd"}, {"serial"}))
+
+    explained = set()
+    for (_c, _f, ex) in trig:
+        explained |= ex
+    if trig and broken <= explained:
+        cls, fields, _ex = trig[0]
+        fields = dict(fields)
+        also = sorted({c for (c, _f, _e) in trig[1:] if c != cls})
+        if also:
+            fields["also"] = also
+        return cls, fields
+    return "unclassified:" + "+".join(sorted(broken)) + ":" + rc[:24], {"expected": sorted(exp),
+                                                                         "triggers": [t[0] for t in trig]}
 
 
 # ------------------------------------------------------------------------------------------
